@@ -884,7 +884,21 @@ pub fn replay(j: &J, path: &str, args: &Args) -> i32 {
         }
         "welzl" | "welzl_structured" => {
             let pts = pts_from(j.get("points").ok_or("points missing")?)?;
-            check_welzl(&pts, j.get("minimal").and_then(|m| m.as_bool()).unwrap_or(false))
+            let minimal = j.get("minimal").and_then(|m| m.as_bool()).unwrap_or(false);
+            // A pure function fails at the first attempt or never. If the first attempt
+            // passes, the recorded failure depended on something that is not in the input
+            // (a per-call hash order, say): repeat, and say so.
+            let mut r = check_welzl(&pts, minimal);
+            if r.is_ok() {
+                for i in 1..args.u64("reps", 3000) {
+                    r = check_welzl(&pts, minimal);
+                    if r.is_err() {
+                        println!("note: passed {} times before failing: the result depends on something other than the input", i);
+                        break;
+                    }
+                }
+            }
+            r
         }
         "spheres" => {
             let sph = j
@@ -902,9 +916,32 @@ pub fn replay(j: &J, path: &str, args: &Args) -> i32 {
                     Ok((DVec3::new(f(0)?, f(1)?, f(2)?), f(3)?))
                 })
                 .collect::<Result<Vec<_>, String>>()?;
-            check_spheres(&sph)
+            let mut r = check_spheres(&sph);
+            if r.is_ok() {
+                for i in 1..args.u64("reps", 3000) {
+                    r = check_spheres(&sph);
+                    if r.is_err() {
+                        println!("note: passed {} times before failing: the result depends on something other than the input", i);
+                        break;
+                    }
+                }
+            }
+            r
         }
-        "knn_cubic" | "knn_noncubic" => check_knn(&knn_from(j.get("knn").ok_or("knn missing")?)?),
+        "knn_cubic" | "knn_noncubic" => {
+            let c = knn_from(j.get("knn").ok_or("knn missing")?)?;
+            let mut r = check_knn(&c);
+            if r.is_ok() {
+                for i in 1..args.u64("reps", 200) {
+                    r = check_knn(&c);
+                    if r.is_err() {
+                        println!("note: passed {} times before failing: the result depends on something other than the input", i);
+                        break;
+                    }
+                }
+            }
+            r
+        }
         _ => Err(format!("HARNESS unknown clause {}", clause)),
     })();
     match res {
